@@ -16,6 +16,9 @@ CLAIMED = {
  "C07": ("deterministic simulation: seeded send histories + tick placement + clock jumps under the simrt scheduler vs. reference sender model (version window), exact NTP conversion",
          "Seeded exploration of the real SenderInterceptor: 1-3 streams and clock rates, sequence/timestamp wraps, multi-packet frames, out-of-order and gapped sends, pauses up to hours on the fake clock, failing downstream writer, both use-latest-packet settings, report ticks from the real ticker or placed at chosen instants (colliding with sends), jumps of the supplied clock; every sender report must equal the reference (packet count, octet count, NTP = exact integer conversion of the instant the library sampled, RTP time = reference timestamp + floor(elapsed x rate) +-1) at some version inside the window the reporting goroutine could have observed.",
          "Trusted: pion/rtcp SenderReport type (fields read directly, no wire round trip), the reference model; one writer goroutine per stream (same-stream concurrency is C10). Packet-count wrap (2^32 packets) is out of reach. Sampling, not proof.", "DESIGN.md §5 C07"),
+ "C06": ("deterministic simulation: faulty-link reception histories + sender reports + scheduler-placed report ticks + clock jumps vs. RFC 3550 reference receiver (version window, state-set tracking)",
+         "Seeded exploration of the real ReceiverInterceptor: 1-3 streams/clock rates, loss, duplication, reordering, sequence wrap and jumps, RTP timestamps crossing 2^32, failing reader, sender reports for matching and foreign SSRCs (incl. NTP with zero middle bits) on the RTCP read path, jumps of the supplied clock, report ticks colliding with arrivals; each reception report must equal an RFC 3550 reference receiver (extended highest sequence, floor(256 lost/expected), saturated cumulative loss, A.8 jitter on wrap-safe 32-bit differences +-1, LSR/DLSR +-1) at some version within the window the reporting goroutine could have observed; the set of possible previous-report states is tracked exactly.",
+         "Trusted: pion/rtcp types (fields read directly) and rtcp.Marshal for the injected sender reports; the reference model. One open known finding (report interval spanning >8192 sequence numbers) is listed in known_findings.json. Sampling, not proof.", "DESIGN.md §5 C06"),
 }
 NA = {
  "C20": "pure single-threaded functions of their inputs (sequence unwrapping, NTP conversion): no schedule, clock, fault, I/O or second party for a simulator to control; deciding them is input enumeration/property-based testing, a different technique (they run as real code inside the C05/C07/C08/C09/C19 scenarios).",
